@@ -103,8 +103,15 @@ def replay(d):
 
 def check(run):
     run.level = "other"
-    run.explanation = ("bounded stand-in: canonicalisation is RDKit's, the sort key uses a regex atom count; the real normalize_smiles / wc_similarity "
-                       "are run on permutations and re-spellings of corpus and constructed reactions (incl. anagram isomers) and on pairs of reactions")
+    run.explanation = ("deductive for SynRBL's own part of the normal form (normalize_smiles: molecules are sorted after each is normalised, the sort key is "
+                       "injective on the tokens, a molecule is CANON(RMAP(RSTEREO(s))), the sides of a reaction stay in place); order independence then follows "
+                       "from the assumed contract of list.sort (injective key under a total order => the result is determined by the multiset).  Idempotence and "
+                       "spelling invariance of RDKit's canonicalisation, and the similarity functions, are bounded stand-ins: the real normalize_smiles / "
+                       "wc_similarity are run on permutations and re-spellings of corpus and constructed reactions (incl. anagram isomers) and on pairs of reactions")
+    run.deductive(["contracts.chemutils"])
+    run.trust("list.sort / sorted: with a key that is injective on the elements and totally ordered key values the sorted list is determined by the multiset "
+              "of elements (CPython; exercised by the permutation stand-in below)")
+    run.trust("RDKit: canon_smiles is a function of the molecule graph for valid stereo-free SMILES (spelling invariance and idempotence: bounded stand-in below)")
     rnd = random.Random(run.seed)
     from checks import pipeline as P
     base = [r for r in P.validation_reactions(120 if run.tier == "quick" else 1500, seed=run.seed) if stereo_free(r)]
